@@ -129,10 +129,13 @@ impl TDigest {
 
             if proposed_weight <= k_limit {
                 // Merge centroid into current
-                current.mean = current
+                // A weighted mean of values in [min, max] lies in [min, max]; clamp so that
+                // rounding or overflow of the products cannot move it outside (or to +-inf).
+                current.mean = (current
                     .mean
                     .mul_add(current.weight, centroid.mean * centroid.weight)
-                    / proposed_weight;
+                    / proposed_weight)
+                    .clamp(self.min, self.max);
                 current.weight = proposed_weight;
             } else {
                 // Push current and start a new one
@@ -220,7 +223,9 @@ impl TDigest {
                     self.centroids[i + 1].mean
                 };
 
-                return left + fraction * (right - left);
+                // Rounding (or overflow of `right - left`) must not carry the estimate
+                // outside the observed range.
+                return (left + fraction * (right - left)).clamp(self.min, self.max);
             }
 
             cumulative = next_cumulative;
